@@ -51,6 +51,9 @@ structure Shaped (e : Emu) : Prop where
     t.mch.map (fun x => (x.1, x.2.length)) = e.specs.map (fun s => (s.char, s.nch))
   chars : (e.specs.map (·.char)).Nodup
   run : ∀ (c : Nat) (x : Cpu), e.cpus[c]? = some x → RunOk e.threads.length x.chThrun.cur
+  /-- the state channel shows the thread state (`thread_set_state` is the only writer) -/
+  st : ∀ (g : Nat) (t : Thread), e.threads[g]? = some t →
+    StateChan t.chState.cur t.state ∧ t.chState.ignoreDup = false
 
 /-- Every source channel of the bay is the emulator's channel. -/
 def Mirrors (e : Emu) (b : Bay) : Prop :=
@@ -205,12 +208,13 @@ theorem Emu.src_setThread_st {e : Emu} {ti : Nat} {t t' : Thread} (ht : e.thread
   simp only [Emu.src, Emu.setThread, hg, List.getElem?_set_self hlt, Option.map_some]
 
 theorem Shaped.setThread {e : Emu} (hs : Shaped e) {ti : Nat} {t t' : Thread} (ht : e.threads[ti]? = some t)
-    (hg : t'.gindex = ti) (hmch : t'.mch = t.mch) :
+    (hg : t'.gindex = ti) (hmch : t'.mch = t.mch)
+    (hst : StateChan t'.chState.cur t'.state ∧ t'.chState.ignoreDup = false) :
     Shaped (e.setThread t') ∧ (e.setThread t').shape = e.shape := by
   have hlt : ti < e.threads.length := (List.getElem?_eq_some_iff.mp ht).1
   have hspecs : (e.setThread t').specs = e.specs := rfl
   have hthr : (e.setThread t').threads = e.threads.set ti t' := by simp [Emu.setThread, hg]
-  refine ⟨⟨?_, hs.cpuIdx, ?_, hs.chars, ?_⟩, ?_⟩
+  refine ⟨⟨?_, hs.cpuIdx, ?_, hs.chars, ?_, ?_⟩, ?_⟩
   · intro g u hu
     rw [hthr] at hu
     rcases getElem?_set_some hu with ⟨rfl, rfl⟩ | ⟨_, h⟩
@@ -225,26 +229,35 @@ theorem Shaped.setThread {e : Emu} (hs : Shaped e) {ti : Nat} {t t' : Thread} (h
   · intro c x hx
     rw [hthr, List.length_set]
     exact hs.run c x hx
+  · intro g u hu
+    rw [hthr] at hu
+    rcases getElem?_set_some hu with ⟨rfl, rfl⟩ | ⟨_, h⟩
+    · exact hst
+    · exact hs.st g u h
   · simp only [Emu.shape, hthr, List.length_set]; rfl
 
 /-- `thread_set_state` & co. stored back: one operation on the state channel. -/
 theorem Sim.setThread {e : Emu} {ti : Nat} {t t' : Thread} (ht : e.threads[ti]? = some t)
     (hg : t'.gindex = t.gindex) (hmch : t'.mch = t.mch)
-    {f : Chan → Except Err Chan} (hf : ChanOp f) (hfc : f t.chState = .ok t'.chState) :
+    {f : Chan → Except Err Chan} (hf : ChanOp f) (hfc : f t.chState = .ok t'.chState)
+    (hst : t.chState.ignoreDup = false → StateChan t'.chState.cur t'.state) :
     Sim e (e.setThread t') := by
   intro hs
   have hgi : t'.gindex = ti := hg.trans (hs.thIdx ti t ht)
-  exact Sim.of_write (fun hs => hs.setThread ht hgi hmch) (.st ti) hf
+  exact Sim.of_write (fun hs => hs.setThread ht hgi hmch
+      ⟨hst (hs.st ti t ht).2, by rw [(hf _ _ hfc).2.2.2.2]; exact (hs.st ti t ht).2⟩) (.st ti) hf
     (by simp only [Emu.src, ht, Option.map_some]) hfc (Emu.src_setThread_st ht hgi)
     (fun s hne => Emu.src_setThread ht hgi hmch s hne) hs
 
 /-- A thread update that touches no mirrored channel. -/
 theorem Sim.setThread_same {e : Emu} {ti : Nat} {t t' : Thread} (ht : e.threads[ti]? = some t)
-    (hg : t'.gindex = t.gindex) (hmch : t'.mch = t.mch) (hst : t'.chState = t.chState) :
+    (hg : t'.gindex = t.gindex) (hmch : t'.mch = t.mch) (hst : t'.chState = t.chState)
+    (hstate : t'.state = t.state) :
     Sim e (e.setThread t') := by
   intro hs
   have hgi : t'.gindex = ti := hg.trans (hs.thIdx ti t ht)
-  refine Sim.of_same (fun hs => hs.setThread ht hgi hmch) (fun s => ?_) hs
+  refine Sim.of_same (fun hs => hs.setThread ht hgi hmch (by rw [hst, hstate]; exact hs.st ti t ht))
+    (fun s => ?_) hs
   by_cases hne : s = .st ti
   · subst hne
     rw [Emu.src_setThread_st ht hgi, hst]
@@ -274,7 +287,7 @@ theorem Shaped.setCpu {e : Emu} (hs : Shaped e) {ci : Nat} {c c' : Cpu} (hc : e.
     (hg : c'.gindex = ci) (hrun : RunOk e.threads.length c'.chThrun.cur) :
     Shaped (e.setCpu c') ∧ (e.setCpu c').shape = e.shape := by
   have hcp : (e.setCpu c').cpus = e.cpus.set ci c' := by simp [Emu.setCpu, hg]
-  refine ⟨⟨hs.thIdx, ?_, hs.mch, hs.chars, ?_⟩, ?_⟩
+  refine ⟨⟨hs.thIdx, ?_, hs.mch, hs.chars, ?_, hs.st⟩, ?_⟩
   · intro g u hu
     rw [hcp] at hu
     rcases getElem?_set_some hu with ⟨rfl, rfl⟩ | ⟨_, h⟩
